@@ -1,6 +1,7 @@
 CONSTANTS
   MaxCalls = 5
   HeomResets = TRUE
+  FreeModeLocal = TRUE
   RestoreOnError = TRUE
   NefRecomputes = TRUE
   NrefPersists = TRUE
